@@ -236,6 +236,51 @@ class CFG:
         self._connect(ends, n)
         return [(n, "T")], [(n, "F")]
 
+    def _desugar_match(self, st: ast.Match) -> list[ast.stmt]:
+        """`match` over value / singleton / or / class() / wildcard patterns as the equivalent if-chain
+        (value patterns compare with ==, singletons with `is`, class patterns with isinstance)"""
+        pre: list[ast.stmt] = []
+        subj: ast.expr = st.subject
+        if not isinstance(subj, (ast.Name, ast.Attribute)) or has_events(subj):
+            tmp = ast.Name(id=f"__match_{st.lineno}", ctx=ast.Store())
+            pre.append(ast.copy_location(ast.Assign(targets=[tmp], value=subj, lineno=st.lineno), st))
+            subj = ast.Name(id=tmp.id, ctx=ast.Load())
+
+        def test(p: ast.pattern) -> ast.expr | None:
+            """None = always matches"""
+            if isinstance(p, ast.MatchValue):
+                return ast.Compare(left=subj, ops=[ast.Eq()], comparators=[p.value])
+            if isinstance(p, ast.MatchSingleton):
+                return ast.Compare(left=subj, ops=[ast.Is()], comparators=[ast.Constant(value=p.value)])
+            if isinstance(p, ast.MatchOr):
+                parts = [test(x) for x in p.patterns]
+                if any(x is None for x in parts):
+                    return None
+                return ast.BoolOp(op=ast.Or(), values=parts)
+            if isinstance(p, ast.MatchClass) and not p.patterns and not p.kwd_patterns:
+                return ast.Call(func=ast.Name(id="isinstance", ctx=ast.Load()), args=[subj, p.cls], keywords=[])
+            if isinstance(p, ast.MatchAs) and p.pattern is None and p.name is None:
+                return None
+            raise AnalysisError(f"{self.func.where(st)}: match pattern {type(p).__name__} is not modelled")
+
+        chain: list[ast.stmt] = []
+        cur = chain
+        for case in st.cases:
+            t = test(case.pattern)
+            if case.guard is not None:
+                t = case.guard if t is None else ast.BoolOp(op=ast.And(), values=[t, case.guard])
+            if t is None:
+                cur.extend(case.body)
+                break
+            node = ast.If(test=t, body=list(case.body), orelse=[])
+            ast.copy_location(node, case.pattern)
+            ast.fix_missing_locations(node)
+            cur.append(node)
+            cur = node.orelse
+        for n in pre + chain:
+            ast.fix_missing_locations(n)
+        return pre + chain
+
     # ------------------------------------------------------------------ statements
     def _stmts(self, body: list[ast.stmt], ends: list[End]) -> list[End]:
         for st in body:
@@ -368,6 +413,8 @@ class CFG:
             if ends:
                 ends = self._then(ends, "with_exit", st, how="normal")
             return ends
+        if isinstance(st, ast.Match):
+            return self._stmts(self._desugar_match(st), ends)
         if isinstance(st, ast.Assert):
             ends = self._expr(st.test, ends)
             t, _f = self._cond(st.test, ends)
